@@ -200,6 +200,17 @@ impl DpOracle for C03Oracle {
         Ok(())
     }
 
+    fn on_user(&mut self, _v: &mut View, act: &UserAct) -> Result<(), Failure> {
+        // the application asks for a fresh parameterisation
+        if let UserAct::ResetAddress(k) = act {
+            if self.adm[*k] == 4 {
+                self.reset_after_s4 = true;
+            }
+            self.adm[*k] = 0;
+        }
+        Ok(())
+    }
+
     fn on_slave_reset(&mut self, _v: &mut View, k: usize) -> Result<(), Failure> {
         if self.reached_s4[k] {
             self.nontrivial = true;
@@ -489,6 +500,14 @@ impl DpOracle for C08Oracle {
                 self.user_diag_outstanding += 1;
             }
         }
+        if let UserAct::ResetAddress(k) = act {
+            // a freshly reset peripheral: not live, frame count bit starts over
+            self.live[*k] = false;
+            self.expect_first[*k] = true;
+            self.awaiting_offline[*k] = false;
+            self.last[*k] = None;
+            self.run_len[*k] = 0;
+        }
         Ok(())
     }
     fn on_events(&mut self, v: &mut View, _cc: bool, ev: Option<(usize, PeripheralEvent)>, after_reply: bool) -> Result<(), Failure> {
@@ -587,6 +606,13 @@ impl DpOracle for C14Oracle {
                 }
             }
             self.runs.push(k);
+        }
+        Ok(())
+    }
+    fn on_user(&mut self, _v: &mut View, act: &UserAct) -> Result<(), Failure> {
+        if let UserAct::ResetAddress(k) = act {
+            self.live[*k] = false;
+            self.configured[*k] = false;
         }
         Ok(())
     }
@@ -730,6 +756,12 @@ impl C07Oracle {
 }
 
 impl DpOracle for C07Oracle {
+    fn on_user(&mut self, _v: &mut View, act: &UserAct) -> Result<(), Failure> {
+        if let UserAct::ResetAddress(k) = act {
+            self.since_offline[*k].clear();
+        }
+        Ok(())
+    }
     fn on_clean_phase(&mut self, v: &mut View) -> Result<(), Failure> {
         self.begin_clean(v);
         Ok(())
